@@ -490,4 +490,8 @@ def run(ctx, chk):
     _cbc = _Ob.PathCache(prog, eff)
     _Nb = _Ob.Nullness(prog, eff, _cbc)
     _cb(chk, "C01.balance", prog, eff, _cbc, _Nb, _Ob.Balance(prog, eff, _cbc, _Nb), _tb.constructors(prog, eff), floor=60)
+    chk.rule("C01.signed-compare", "no 64-bit comparison in the library is signed: sizes, lengths, counts, indices and remainders are compared as the unsigned "
+             "quantities they are (a length with the top bit set must not pass the claim or any bounds test)")
+    import rules as _rsc
+    _rsc.check_signed_compare(chk, "C01.signed-compare", prog)
     chk.exhaustive = True
